@@ -14,6 +14,7 @@ package main
 // whether the signature is over (named address ‖ this item's hash))
 
 import (
+	"os"
 	"bytes"
 	"context"
 	"crypto/sha256"
@@ -1164,6 +1165,106 @@ func init() {
 			if !v.hasItem(3) {
 				c.Violate("C11", "awaiting-transaction-not-delivered-behind-second-origin", "node D (reachable only through B, which already held the contract) never received it",
 					map[string]interface{}{"section": "gossip", "scenario": "double-origin"})
+			}
+			v.close()
+		}
+		// ---- a peer joins while an item is being processed: the relay M (1) hands A (2) a vertex whose list carries
+		// M's own entry and a forged entry naming H (3) - right digest, M's signature. H is not yet a peer of A
+		// when the message arrives; its handshake completes while A's ledger is still busy with the vertex. A must
+		// forward the vertex to H (nothing valid says H has it) and must not pass the forged entry on.
+		for _, isTrx := range []bool{false, true} {
+			// (B (4) is a peer of A from the start: what A forwards is visible in both variants. A transaction
+			// message does not touch the ledger, so the harness cannot stretch its processing: for transactions only
+			// the forwarded list is judged.)
+			v := newVnet(c, 5, [][]int{{1}, {0, 2}, {1, 4}, {}, {2}}, []bool{true, false, true, true, true}, isTrx)
+			v.silent = true
+			rich, other := v.w.wallets[0], v.w.wallets[1]
+			var msgV *pb.VrxMsgGossip
+			var msgT *pb.TrxMsgGossip
+			entry := func(named, key int) *pb.Gossiper {
+				d, sg := recSigner{v.nodes[key].w}.Sign(gossip.VerifGossiperMessage(v.nodes[named].w.Address(), v.item))
+				return &pb.Gossiper{Address: v.nodes[named].w.Address(), Digest: d[:], Signature: sg}
+			}
+			if isTrx {
+				ct, _ := transaction.New("deal", spice.Melange{}, []byte("joining"), other.Address(), recSigner{rich})
+				v.item = ct.Hash
+				pt, _ := transformers.TrxToProtoTrx(ct)
+				msgT = &pb.TrxMsgGossip{Trx: pt, Gossipers: []*pb.Gossiper{entry(1, 1), entry(3, 1)}}
+			} else {
+				t, _ := transaction.New("pay", spice.Melange{Currency: 5}, nil, other.Address(), recSigner{rich})
+				vx, err := v.nodes[0].ab.CreateLeaf(context.Background(), &t)
+				if err != nil {
+					return fmt.Errorf("joining-peer scenario: seal: %v", err)
+				}
+				v.item = vx.Hash
+				msgV = &pb.VrxMsgGossip{Vertex: gossip.VerifMapVertexToProto(&vx), Gossipers: []*pb.Gossiper{entry(1, 1), entry(3, 1)}}
+			}
+			release := make(chan struct{})
+			held := make(chan struct{})
+			go v.nodes[2].ab.VerifHoldLedger(func() { close(held); <-release })
+			<-held
+			done := make(chan error, 1)
+			go func() {
+				var e error
+				if isTrx {
+					_, e = v.gsp[2].Server().GossipTrx(context.Background(), msgT)
+				} else {
+					_, e = v.gsp[2].Server().GossipVrx(context.Background(), msgV)
+				}
+				done <- e
+			}()
+			time.Sleep(60 * time.Millisecond)
+			v.gsp[2].SetPeer(v.nodes[3].w.Address(), "url-3", &netStub{net: v, src: 2, dst: 3}) // H's handshake completes
+			v.adj[2] = append(v.adj[2], 3)
+			time.Sleep(20 * time.Millisecond)
+			close(release)
+			var herr error
+			select {
+			case herr = <-done:
+			case <-time.After(10 * time.Second):
+				herr = fmt.Errorf("handler did not return")
+			}
+			if isTrx {
+				v.waitFresh(1)
+			} else {
+				v.waitFresh(2)
+			}
+			v.settle()
+			toH, forgedOn := 0, ""
+			if os.Getenv("VDEBUG") != "" {
+				fmt.Fprintf(os.Stderr, "joining trx=%v herr=%v queue=%d fresh=%d has2=%v\n", isTrx, herr, len(v.queue), len(v.fresh), v.hasItem(2))
+				for _, m := range v.queue {
+					fmt.Fprintf(os.Stderr, "  %d->%d %s\n", m.src, m.dst, v.msgSym(m))
+				}
+			}
+			for _, m := range v.queue {
+				if m.src != 2 {
+					continue
+				}
+				if m.dst == 3 {
+					toH++
+				}
+				var gs []*pb.Gossiper
+				if m.vrx != nil {
+					gs = m.vrx.Gossipers
+				} else {
+					gs = m.trx.Gossipers
+				}
+				for _, g := range gs {
+					if sym := v.entrySym(g); strings.HasPrefix(sym, "3:1:") {
+						forgedOn = fmt.Sprintf("to node %d: %s", m.dst, sym)
+					}
+				}
+			}
+			c.Rep.Evals++
+			c.Count("joining-peer")
+			c.Distinct(fmt.Sprintf("joining-peer/trx=%v toH=%d forged=%v", isTrx, toH, forgedOn != ""))
+			info := map[string]interface{}{"section": "gossip", "scenario": "peer-joins-mid-processing", "trx": isTrx}
+			if herr == nil && toH == 0 && !isTrx && v.hasItem(2) {
+				c.Violate("C12", "forged-entry-suppresses-joining-peer", "A accepted the item from the relay; a forged entry (relay's signature) named H, which became A's peer while the item was processed: A never forwarded the item to H", info)
+			}
+			if forgedOn != "" {
+				c.Violate("C12", "unverified-entry-forwarded", "A passed on a gossiper entry that names H but carries the relay's signature ("+forgedOn+"): entries that do not verify are to be ignored, not relayed", info)
 			}
 			v.close()
 		}
